@@ -27,6 +27,7 @@ EXPLANATION = (
     "RO: the read-only API (str, duration, estimate, phase-ref, is_*, declared_*, available_channels, serialisation, sampling, drawing) has an empty "
     "state-write summary. NOT decided: implicit exceptions raised by library calls (numpy, float(), dict lookups), and the behavioural equality "
     "of rebuilt/deserialised sequences (runtime). ORDER (added): the raises through which a triaged pair can fail are frozen (tables/c09_pair_raises.json) -- a raise that was not possible when the pair was triaged is reported; a raise of a validator that already ran, on an argument of the same name, at a point dominating the mutation is discharged; raises inside single-site private helpers are attributed to the caller; tables/c09_precedence.json lists validate-before-mutate facts the triage relies on (checked on the program order of the symbolic log)."
+    " ALIAS (round 3): no public accessor of Sequence returns one of the sequence's own mutable containers (_variables, _calls, _schedule, ...) itself: a copy or a derived value only, so that neither a caller nor a replica made by switch_register/switch_device can change the sequence without a recorded call."
 )
 ASSUMPTIONS = [
     "only explicit raise statements of the project are modelled; implicit exceptions of builtins/numpy are not",
